@@ -12,6 +12,7 @@ import (
 	"net/http"
 	"net/url"
 	"os"
+	"reflect"
 	"strings"
 	"time"
 
@@ -370,4 +371,22 @@ func NewIDP(kn string, reg SPRegistry, sess *saml.Session) *saml.IdentityProvide
 		ServiceProviderProvider: reg,
 		SessionProvider:         FixedSession{S: sess},
 	}
+}
+
+// longLivedIDP is ONE IdentityProvider value per process that the IdP-side checks reconfigure from case to case instead of building a
+// fresh one: every exported field is overwritten with the case's configuration, anything else the value may hold (state the library
+// carries between requests) stays. On a library without such state this is indistinguishable from a fresh value; with it, the
+// enumeration order of the worker becomes one long reconfiguration history.
+var longLivedIDP saml.IdentityProvider
+
+// ReuseIDP reconfigures and returns the process's long-lived IdentityProvider.
+func ReuseIDP(kn string, reg SPRegistry, sess *saml.Session) *saml.IdentityProvider {
+	fresh := NewIDP(kn, reg, sess)
+	dst, src := reflect.ValueOf(&longLivedIDP).Elem(), reflect.ValueOf(fresh).Elem()
+	for i := 0; i < dst.NumField(); i++ {
+		if dst.Type().Field(i).IsExported() {
+			dst.Field(i).Set(src.Field(i))
+		}
+	}
+	return &longLivedIDP
 }
